@@ -195,6 +195,7 @@ theorem shape_updateClient (s : St) (c : Nat) (w : Wrap) (hd : Hdr) (ibc : Bool)
   unfold updateClient
   cases w with
   | nested => exact Shape.refl s
+  | storedProposal => exact Shape.refl s
   | wrapped => exact Shape.refl s
   | nestedWrapped => exact Shape.refl s
   | top =>
